@@ -173,7 +173,8 @@ def payload_sig(expr: str):
 
     cfg = {"extensions": ["semantiva-examples", "verif_ext"], "pipeline": {"nodes": [
         {"processor": "VPairSource", "derive": {"parameter_sweep": {
-            "parameters": {"a": expr}, "variables": {"x": {"values": [1.0, 2.0]}, "y": {"values": [3.0]}},
+            "parameters": {"b": "(y - x)", "a": expr},       # two parameters, NOT in alphabetical order
+            "variables": {"x": {"values": [1.0, 2.0]}, "y": {"values": [3.0]}},
             "collection": "FloatDataCollection"}}}]}}
     try:
         payload = build_inspection_payload(cfg)
@@ -185,6 +186,9 @@ def payload_sig(expr: str):
         if isinstance(o, dict):
             if isinstance(o.get("parameters_sig"), dict) and "a" in o["parameters_sig"]:
                 found.append(o["parameters_sig"]["a"])
+                from semantiva.metadata.semantic_id import normalize_expression_sig_v1 as _sig
+                if o["parameters_sig"].get("b") != _sig("(y - x)"):
+                    found.append({"wrong-parameter": "b", "got": o["parameters_sig"].get("b")})
             for v in o.values():
                 walk(v)
         elif isinstance(o, list):
